@@ -43,6 +43,11 @@ def run(ctx):
         ok, cex = must_exit(fsm, s, {RXA: False, RXV: False}, targets=tg)
         ctx.ob('C02.packet-end', 'USBDataPacketReceiver.' + role(s), ok, fsm.state_loc[s],
                'state %s must leave when the packet ends (rx_active low): %s' % (s, cex))
+    for e in fsm.in_edges(init):
+        if e.src == D:
+            continue
+        ctx.ob('C02.idle-only-at-packet-end', 'USBDataPacketReceiver.%s->init' % role(e.src), (RXA, False) in q.atoms(e), e.loc,
+               'returning to the initial state while the packet is still in progress lets its remaining bytes be parsed as a new packet: %s' % q.fmt(e))
     # (b)
     ap, am = q.atoms(pc[0]), q.atoms(cm[0])
     cmp_ = [a for a, p in ap if p and ' == ' in a and 'crc' in a]
